@@ -70,8 +70,11 @@ def pmap(fn: Callable[[Any], Dict[str, Any]], args: Iterable[Any], procs: int = 
         return []
     if procs <= 1 or os.environ.get("HV_SERIAL"):
         return [_call(a) for a in args]
-    with mp.get_context("fork").Pool(min(procs, len(args))) as pool:
-        return pool.map(_call, args, chunksize=max(1, len(args) // (procs * 4)))
+    # ProcessPoolExecutor workers are not daemonic, so the library under test may start its own process pools
+    from concurrent.futures import ProcessPoolExecutor
+
+    with ProcessPoolExecutor(max_workers=min(procs, len(args)), mp_context=mp.get_context("fork")) as pool:
+        return list(pool.map(_call, args, chunksize=max(1, len(args) // (procs * 4))))
 
 
 def summarise(results: List[Dict[str, Any]], what_prefix: str, scope: str, max_fail: int = 5) -> Dict[str, Any]:
@@ -93,3 +96,18 @@ def summarise(results: List[Dict[str, Any]], what_prefix: str, scope: str, max_f
                 f["what"] = what_prefix + "." + f.get("what", "clause")
                 out["failures"].append(f)
     return out
+
+
+class LibFailure(Exception):
+    pass
+
+
+def lib(fails: List[Dict[str, Any]], what: str, inp: Any, fn: Callable, *a, **kw):
+    """Run a call into the library under test: an exception it raises on a valid input is a property failure (recorded in
+    `fails`, LibFailure raised to abandon the case), not a harness error."""
+    try:
+        return fn(*a, **kw)
+    except Exception as e:
+        fails.append({"what": what + ".raises", "input": inp, "observed": f"{type(e).__name__}: {e}", "expected": "no exception on a valid input",
+                      "trace": traceback.format_exc()[-800:]})
+        raise LibFailure()
